@@ -205,6 +205,10 @@ func registerIntrinsics(m *Machine) {
 		return v
 	})
 	I["time.Since"] = inline(func(m *Machine, it *Item, a []Value) Value {
+		if m.SinceFixed != nil {
+			m.logGhost("time.Since", m.SinceFixed)
+			return m.SinceFixed
+		}
 		d := m.Fresh("since", m.intSort())
 		lo := int64(0)
 		if m.SincePositive {
